@@ -3,7 +3,7 @@ import random
 import warnings
 import numpy as np
 
-from .. import tlc, ftable
+from .. import ftable
 from ..common import MachineryError, seed, quiet
 from . import _sysalg_world as W
 from . import _sysalg_ops as O
